@@ -1339,6 +1339,14 @@ def simplify_term(t):
             return ("payload", base[1])
         if base[0] == "field" and base[2] in ("as ErrOrNone", "as Err") and name == "0":
             return ("errpayload", base[1])
+        if base[0] == "with" and isinstance(name, str) and not name.startswith("as "):
+            # reading a member of a functionally updated record
+            exact = [v for pth, v in base[2] if pth == (name,)]
+            if len(exact) == 1:
+                return exact[0]
+            deeper = frozenset((pth[1:], v) for pth, v in base[2] if len(pth) > 1 and pth[0] == name)
+            inner = simplify_term(("field", base[1], name))
+            return ("with", inner, deeper) if deeper else inner
         if base[0] == "phi":
             return ("phi", frozenset(simplify_term(("field", x, name)) for x in base[1]))
         if base[0] == "gamma":
@@ -1395,7 +1403,14 @@ def simplify_term(t):
     if t[0] in ("unop", "cast", "try"):
         return t[:-1] + (simplify_term(t[-1]),)
     if t[0] == "with":
-        return ("with", simplify_term(t[1]), frozenset((pth, simplify_term(v)) for pth, v in t[2]))
+        b = simplify_term(t[1])
+        ups = {pth: simplify_term(v) for pth, v in t[2]}
+        if isinstance(b, tuple) and b and b[0] == "with":
+            # successive updates of one record: later ones override
+            merged = {pth: v for pth, v in b[2] if not any(_is_prefix(p2, pth) for p2 in ups)}
+            merged.update(ups)
+            return ("with", b[1], frozenset(merged.items()))
+        return ("with", b, frozenset(ups.items()))
     if t[0] == "upd":
         return ("upd", t[1], simplify_term(t[2]), tuple(simplify_term(a) for a in t[3]))
     return t
@@ -1966,6 +1981,40 @@ def flagset(t, depth=0):
         a, b = flagset(t[2], depth + 1), flagset(t[3][0], depth + 1)
         return None if a is None or b is None else a | b
     return None
+
+
+def flag_delta(t, depth=0):
+    """(base, added): a flags-valued term as `base | added-flags` where base is the first sub-term that is not an OR of
+    named constants (e.g. `self.flags`), or None when the value is built from constants only"""
+    from . import names as _n
+    fs = flagset(t)
+    if fs is not None:
+        return None, fs
+    if depth > 20 or not isinstance(t, tuple) or not t:
+        return t, set()
+    if len(t) == 4 and t[0] == "upd" and isinstance(t[1], str) and (_n.is_(t[1], "BitOrAssign::bitor_assign") or t[1].endswith("::insert")) and len(t[3]) == 1:
+        add = flagset(t[3][0])
+        if add is not None:
+            b, s0 = flag_delta(t[2], depth + 1)
+            return b, s0 | add
+    if len(t) == 4 and t[0] == "call" and isinstance(t[1], str) and (_n.is_(t[1], "BitOr::bitor") or t[1].endswith("::union") or t[1].endswith("::set_flags")) and len(t[2]) == 2:
+        add = flagset(t[2][1])
+        if add is not None:
+            b, s0 = flag_delta(t[2][0], depth + 1)
+            return b, s0 | add
+    if t[0] == "binop" and t[1] == "BitOr":
+        for x, y in ((t[2], t[3]), (t[3], t[2])):
+            add = flagset(y)
+            if add is not None:
+                b, s0 = flag_delta(x, depth + 1)
+                return b, s0 | add
+    if t[0] == "agg" and len(t[3]) == 1:
+        return flag_delta(t[3][0][1], depth + 1)
+    if t[0] == "field" and t[2] == "0":
+        b, s0 = flag_delta(t[1], depth + 1)
+        if s0:
+            return b, s0
+    return t, set()
 
 
 def byte_segments(t):
